@@ -123,11 +123,11 @@ def rule_integers(ctx, F, rule="R3"):
 COMP = ["x", "y", "z", "w"]
 
 
-def rule_glam(ctx, F, rule="R4"):
+def rule_glam(ctx, F, rule="R4", impls=None, prefix="glam::", floors=True):
     nvec = nquat = 0
-    for b in lerp_impls(F):
+    for b in (impls if impls is not None else lerp_impls(F)):
         ty = b["impl_self"]
-        if not ty.startswith("glam::"):
+        if not ty.startswith(prefix):
             continue
         short = ty.split("::")[-1]
         eng = pse.Engine(F, inline=lambda fn, bb: False)
@@ -160,8 +160,9 @@ def rule_glam(ctx, F, rule="R4"):
                "%s must interpolate component-wise: new(self.c.lerp(&b.c, t), ...) with the same component on both "
                "sides, in constructor order, t unchanged; %s" % (short, bad or show(r)), b["span"],
                what="component-mismatch")
-    ctx.floor(rule, "glam vector impls", nvec, 19)
-    ctx.floor(rule, "glam quaternion impls", nquat, 2)
+    if floors:
+        ctx.floor(rule, "glam vector impls", nvec, 19)
+        ctx.floor(rule, "glam quaternion impls", nquat, 2)
 
 
 def check(ctx):
@@ -175,3 +176,16 @@ def check(ctx):
                      "numeric question)")
     ctx.assumptions += ["a, b exactly representable in f32 (the property's premise)",
                         "num_traits::FromPrimitive::from_f32 is a checked conversion; f32::round rounds half away from zero"]
+
+
+def controls(ctx, F):
+    impls = F.find(crate="witness_controls", name="lerp", impl_trait=LERP)
+    rule_glam(ctx, F, "R4", impls=impls, prefix="witness_controls::lerp::CtlVec", floors=False)
+    # the non-exact scalar form a + x (b - a): endpoint rule must fire
+    b = F.one(crate="witness_controls", name="ctl_lerp_inexact")
+    ps = [p for p in pse.Engine(F).run(b) if p.outcome == "return"]
+    r = ps[0].ret
+    e1 = terms.exact(terms.subst(r, {X: terms.F(1.0)}))
+    ctx.ob("R1", "control/inexact", e1 == B, "control reduces to %s" % show(e1), what="endpoint-not-exact")
+    return [("R4", "component-mismatch", "vector lerp with mismatched components"),
+            ("R1", "endpoint-not-exact", "scalar lerp in the form a + x (b - a)")]
